@@ -3,7 +3,7 @@ from __future__ import annotations
 
 from typing import Any, Dict, List, Optional, Set, Tuple
 
-from ..kit import Ctx, calls, calls_target, kw, loops, nf_cmp, normal_paths, poly_of, rule, short, stores
+from ..kit import caller_ok, nonempty_decision, Ctx, calls, calls_target, kw, loops, nf_cmp, normal_paths, poly_of, rule, short, stores
 from ..paths import Event, Path
 from ..terms import NONE, Term, Unrecognised, cmp_nf, key, strip_ver, subterms
 from .c04 import writer_allowlist
@@ -26,14 +26,14 @@ def r1(ctx: Ctx) -> None:
     ctx.require(n >= 1, f"{IT}: call of _update_markets not found inside the step loop")
     for callee, allowed in ((UM, {IT}), (HO, {UM}), (COL, {UM})):
         for s in ctx.cg.sites_calling(callee):
-            ctx.check(s.caller.qualname in allowed, s.caller, s.node, f"caller of {callee}", ", ".join(sorted(allowed)), s.caller.qualname)
+            ctx.check(caller_ok(ctx, s.caller, lambda g, allowed=allowed: g.qualname in allowed), s.caller, s.node, f"caller of {callee}", ", ".join(sorted(allowed)), s.caller.qualname)
     # who asks agents for orders
     p = ctx.program
     nsub = 0
     for s in ctx.cg.sites_by_name("submit_orders"):
         q = s.caller.qualname
         nsub += 1
-        ok = q in (COL, HO) or (s.caller.cls is not None and p.is_subclass(s.caller.cls.name, "Agent") and s.caller.name.startswith("submit_orders"))
+        ok = caller_ok(ctx, s.caller, lambda g: g.qualname in (COL, HO) or (g.cls is not None and p.is_subclass(g.cls.name, "Agent") and g.name.startswith("submit_orders")))
         ctx.check(ok, s.caller, s.node, "submit_orders is invoked by the run loop (or by an agent delegating to its base class)", f"{COL} | {HO} | Agent.submit_orders*", q)
     ctx.require(nsub >= 2, "fewer submit_orders call sites than confirmed")
     # belt and braces inside the handlers: acceptance happens only on paths where placement was seen true
@@ -70,7 +70,7 @@ def r2(ctx: Ctx) -> None:
         ctx.check(ok, f, b.accept.node, f"{b.phase} {b.kind}: matching round iff execution switch, on the order's own market", f"if session.with_order_execution: {market_of(b.accept)}._execution()", found)
     ctx.check(kinds == {("order", "normal"), ("cancel", "normal"), ("order", "hft"), ("cancel", "hft")}, f, f.node, "orders and cancels are handled in the normal and the high-frequency phase", "4 kinds", str(sorted(kinds)))
     for s in ctx.cg.sites_calling(EXEC):
-        ctx.check(s.caller.qualname == HO, s.caller, s.node, f"caller of {EXEC}", HO, s.caller.qualname)
+        ctx.check(caller_ok(ctx, s.caller, lambda g: g.qualname == HO), s.caller, s.node, f"caller of {EXEC}", HO, s.caller.qualname)
     # markets take over the session's switch before the first step
     g = ctx.func(IT)
     for p in normal_paths(ctx.paths(IT)):
@@ -244,10 +244,11 @@ def _cap_loop(ctx: Ctx, f, l: Event, cap_attr: str, label: str) -> None:
                 if nf == cmp_nf("<", ph, cap, integer=True):
                     guard = True
             ctx.check(guard, f, subm[0].node, f"{label}: the cap is tested before the agent is consulted", f"`{counter} >= session.{cap_attr}` decided false on the path to submit_orders", "guard present" if guard else "agent consulted without a preceding cap test")
-            nonempty = [pol for c, pol, _ in bp.conds if strip_ver(c)[0] == "cmp" and strip_ver(c)[1] == "<" and strip_ver(c)[2] == ("const", 0) and strip_ver(c)[3][0] == "call" and key(strip_ver(c)[3][1]) == "len" and strip_ver(c)[3][2][0] == strip_ver(subm[0].term)]
+            ne = nonempty_decision(bp, subm[0].term)
             inc = bp.env.get(counter) == ("bin", "+", ph, ("const", 1))
             same = bp.env.get(counter) == ph
-            ok3 = bool(nonempty) and ((nonempty[-1] and inc) or ((not nonempty[-1]) and same))
+            ok3 = ne is not None and ((ne and inc) or ((not ne) and same))
+            nonempty = [ne]
             ctx.check(ok3, f, subm[0].node, f"{label}: the counter counts agents that produced orders", "count + 1 iff the batch is non-empty", f"non-empty={nonempty[-1] if nonempty else '?'} -> {counter} = {short(bp.env.get(counter))}")
         elif bp.exit[0] == "break":
             stop = False
